@@ -9,5 +9,5 @@ for p in "$@"; do
   cp $out/$p/notes.json seeded/${p}${suf}/meta.json
   git -C /repo worktree remove --force ${wt}-$p 2>/dev/null
 done
-printf '%s\n' "$@" | xargs -P 3 -I{} sh -c "tools/mutant.py --patch seeded/{}${suf}/patch.diff --prop {} > /var/tmp/seedlogs/{}${suf}.log 2>&1"
+printf '%s\n' "$@" | xargs -P 4 -I{} sh -c "tools/mutant.py --patch seeded/{}${suf}/patch.diff --prop {} > /var/tmp/seedlogs/{}${suf}.log 2>&1"
 for p in "$@"; do echo "== $p$suf"; grep -v WARNING /var/tmp/seedlogs/${p}${suf}.log | grep "demo\|suite\|MUTANT\|key=" | cut -c1-260 | head -6; done
